@@ -16,7 +16,7 @@ for name in (sys.argv[1:] or sorted(n for n in os.listdir(f"{HERE}/seeded") if n
         for c in own["checks"]:
             out = f"{WT}/{name}_out"; shutil.rmtree(out, ignore_errors=True); os.makedirs(out)
             t = time.time()
-            r = sh(f"./check {c} --tier quick", cwd=HERE, env=dict(os.environ, VF_REPO=wt, VF_OUT=out), timeout=7200)
+            r = sh(f"./check {c} --tier quick", cwd=HERE, env=dict(os.environ, VF_REPO=wt, VF_OUT=out, VF_FAST_FAIL="1"), timeout=7200)
             lines = [l[:300] for l in r.stdout.splitlines() if l.startswith("  failure")]
             meta["checks"][c] = {"rc": r.returncode, "wall_s": round(time.time() - t, 1), "signatures": lines[:6]}
             meta["ran"].append(f"VF_REPO=<worktree with the fix un-applied> ./check {c} --tier quick -> exit {r.returncode}")
